@@ -37,6 +37,8 @@ func runC18(c *Ctx) {
 	// acknowledged operations survive eviction, and a notification for an evicted instance is refused (shared with C11)
 	c.Doc("R11.5", "evictIfNeeded deletes from the loaded set only on the !NeedCommit() edge, together with lru.Remove, and locks the evicted instance; entityUpdated fails when the entity is not loaded (a creation or edit on an evicted instance is not acknowledged)")
 	checkEviction(c)
+	// concurrent commits get distinct times: one clock instance per name, never replaced, created atomically (shared with C05)
+	checkClockRebuild(c)
 	fns := lockScopeFns(w)
 	exemptHold := map[string]string{
 		"cache.CachedEntityBase.Lock": "documented: locks an evicted instance forever so that stale users block instead of diverging",
